@@ -194,6 +194,18 @@ CHECKS = {
         'quick': {'shards': 16, 'timeout': 900},
         'thorough': {'shards': 16, 'timeout': 5400},
     },
+    'C10': {
+        'pkg': 'internal/server', 'test': 'TestVerif_C10', 'level': 'exploration',
+        'technique': 'runtime trace checker: independent strict TLS record/ClientHello/ServerHello parser run offline over the byte taps of every client<->server connection of whole-system sessions (real client, real Serve loop)',
+        'level_text': 'Whole-system direct-mode sessions (three browser signatures, configured and random server names incl. a 253-byte name, four methods, singleplex and 1..4 connections, ordered and datagram mode) carry echo traffic with write sizes from 1 byte to several frames, stream closes and session closes from either side; '
+                      'every byte either side wrote is then parsed: one handshake record with a structurally valid ClientHello (SNI as configured or of the documented random shape, 32-byte session id, 32-byte x25519 share), ServerHello echoing the session id + ChangeCipherSpec + application data, '
+                      'and thereafter only type-23/version-3.3 records of length 1..16640 with no stray bytes.',
+        'level_note': 'Assumes ' + A_RACE + ' and that verifkit/reftls.go reads RFC 8446 correctly. Traffic patterns are sampled; the structural checks are exact on everything that was sent.',
+        'rule': 'case = one whole-system session (configuration x traffic pattern x segmentation); distinct = hash of the configuration; hello_variants counts distinct (length, extension order) pairs; non-trivial = at least one data record beyond the handshake was parsed in each direction',
+        'assumptions': [A_RACE, A_HARNESS],
+        'quick': {'shards': 16, 'timeout': 900},
+        'thorough': {'shards': 16, 'timeout': 5400},
+    },
 }
 
 NOT_APPLICABLE = {p: 'check not built yet in this round (the design in DESIGN.md section 3 applies; runtime monitoring can decide it)'
